@@ -331,6 +331,9 @@ class AsyncFIXConnection:
                         self._msg_buffer = self._msg_buffer[parsed_length:]
 
                     if decoded_msg is None:
+                        if parsed_length > 0 and self._msg_buffer:
+                            # garbage / malformed frame skipped, more data remains
+                            continue
                         break
 
                     await self._process_message(decoded_msg, raw_msg)
